@@ -163,6 +163,7 @@ func RunDoc(c *hx.Ctx, idx int, keep bool) {
 	r := c.Rng.Fork(uint64(idx))
 	F := formatOf(idx)
 	d := docFor(r, idx)
+	drawStructure(structStream(c, idx), d)
 	kase := docCase{Seed: c.Seed, Index: idx, Format: F}
 	path := filepath.Join(c.OutDir, fmt.Sprintf("doc-%d.%s", idx, F))
 	var opLine string
@@ -346,6 +347,7 @@ func stats(c *hx.Ctx, d *ldoc) {
 	if d.Body != "" {
 		c.Count(d.Format + "-body-style-document:" + d.Body)
 	}
+	statsStructure(c, d)
 	shared := d.outlineStyled()
 	outlineSeen := map[string]bool{} // body styles a direct-outline heading has used so far
 	prevLi := -1             // level of the list item before, -1 = the list starts here
@@ -377,7 +379,7 @@ func stats(c *hx.Ctx, d *ldoc) {
 			}
 			c.Count(d.Format + "-table")
 			if bl.T.Groups > 0 {
-				c.Count("odt-table-grouped:" + []string{"", "header-rows", "header-rows+table-rows", "table-columns+table-rows", "nested-row-groups", "header-columns+column-group"}[bl.T.Groups])
+				c.Count("odt-table-grouped:" + []string{"", "header-rows", "header-rows+table-rows", "table-columns+table-rows", "nested-row-groups", "header-columns+column-group", "row-plan"}[bl.T.Groups])
 			}
 			for _, k := range bl.T.mergeClasses() {
 				c.Count(d.Format + "-" + k)
@@ -733,7 +735,50 @@ func witnessDocs() []*ldoc {
 		relevelOwnWitness(),
 		// ODT: headings that state no level themselves, paragraphs written in heading styles
 		unlevelWitness(),
+		// DOCX: a block-level content control between the blocks of the body, then a table
+		// that is followed by paragraphs; containers nested in one another around a heading
+		// and a table; a marker element between the blocks
+		boxWitness("sdt"),
+		boxWitness("customXml-in-sdt"),
+		// ODT: two row groups with their own header rows; rows before the header rows.
+		// DOCX: "repeat as header row" on a row further down
+		headerRowsWitness("odt", []rowSeg{{1, "header", 1}, {1, "", 1}, {1, "header", 2}, {1, "rows", 2}}),
+		headerRowsWitness("odt", []rowSeg{{1, "", 0}, {2, "header", 0}, {1, "", 0}}),
+		headerRowsWitness("docx", nil),
 	}
+}
+
+// boxWitness: paragraph, container[paragraph (and, nested: heading, table)], table,
+// paragraph, paragraph.
+func boxWitness(kind string) *ldoc {
+	t1 := gridTable(1, 2, anc{0, 0, 0, 0, "W003x"}, anc{0, 1, 0, 0, "W004x"})
+	d := &ldoc{Format: "docx", NoDraw: true, Blocks: []lblock{
+		{P: &lpara{Kind: "p", Runs: tx("W001x")}},
+		{P: &lpara{Kind: "p", Runs: tx("W002x")}, Box: 1, BoxKind: kind},
+		{T: t1},
+		{P: &lpara{Kind: "p", Runs: tx("W005x")}},
+		{P: &lpara{Kind: "p", Runs: tx("W006x")}, Marks: 2},
+	}}
+	if kind != "sdt" {
+		t0 := gridTable(1, 1, anc{0, 0, 0, 0, "W008x"})
+		d.Blocks = append(d.Blocks[:2], append([]lblock{
+			{P: &lpara{Kind: "h", Level: 2, Via: "outline", Runs: tx("W007x")}, Box: 1, BoxKind: kind},
+			{T: t0, Box: 1, BoxKind: kind}}, d.Blocks[2:]...)...)
+	}
+	return d
+}
+
+// headerRowsWitness: a table of four rows and two columns between two paragraphs, its
+// rows laid out by the plan (odt) / its third row marked w:tblHeader (docx).
+func headerRowsWitness(F string, plan []rowSeg) *ldoc {
+	t := gridTable(4, 2, anc{0, 0, 0, 0, "W002x"}, anc{0, 1, 0, 0, "W003x"}, anc{1, 0, 0, 0, "W004x"}, anc{1, 1, 0, 0, "W005x"},
+		anc{2, 0, 0, 0, "W006x"}, anc{2, 1, 0, 0, "W007x"}, anc{3, 0, 0, 0, "W008x"}, anc{3, 1, 0, 0, "W009x"})
+	if F == "odt" {
+		t.Groups, t.Plan = 6, plan
+	} else {
+		t.HdrRows = map[int]bool{2: true}
+	}
+	return &ldoc{Format: F, NoDraw: true, Blocks: []lblock{{P: &lpara{Kind: "p", Runs: tx("W001x")}}, {T: t}, {P: &lpara{Kind: "p", Runs: tx("W010x")}}}}
 }
 
 // unlevelWitness: <text:h> without text:outline-level (and with one that is no level) in
@@ -934,6 +979,8 @@ func Run(c *hx.Ctx) {
 		"ODT headings whose text:outline-level is NOT the level their paragraph style's definition chain says (a heading moved to another level keeps its style): through an automatic style derived from Heading N / a custom heading style of another level, through a family style that inherits its level (the style named carries no outline level of its own: key odt-outline-level-vs-inherited-style-level), and naming the built-in / custom / localized / family heading style of another level itself (key odt-outline-level-vs-own-style-level; repaired d316e04) - the heading's level is what text:outline-level says; " +
 		"ODT headings that state NO level themselves (text:outline-level left out, empty, 0, 11, -2, 2.5, a word) in every kind of paragraph style - built-in / custom / localized heading style, automatic style derived from one, family style with an own or an inherited level, cyclic styles, a body style or no style (key odt-heading-without-outline-level: a heading, in place, at level 1 or at the level of its paragraph style) - and headings whose level is respelled (03); ODT plain paragraphs <text:p> written in a heading style or in a style derived from one (built-in, custom, localized, automatic PHn / PKn, family styles: key odt-paragraph-in-heading-style - a paragraph, not a heading); " +
 		"every generated and render-stream package in a drawn MARKUP FLAVOUR (flavour.go; about half keep the writers' spelling): DOCX in the ISO/IEC 29500 Strict namespaces (main, relationships, every relationship Type, w:conformance=strict), the relationships namespace under another prefix or declared on each referencing element instead of the root, the main namespace under another prefix or as default namespace (each WordprocessingML part on its own), and combinations; ODT with text/office/style/table/fo under other prefixes, the text / style namespace as default namespace, table/xlink/svg declared on the elements that use them - same logical document, same authored trees, same expectations; HeaderTexts()/FooterTexts() of the reader hold the lines of the header / footer parts (key header-requested); " +
+		"from a stream of its own (structure.go) the STRUCTURE around the blocks and inside the tables: in a third of the DOCX documents one or two runs of 1..3 consecutive blocks (paragraphs, headings, list items, tables) written inside a block-level container that is a direct child of the body - content control w:sdt/w:sdtContent, w:customXml, one nested in the other - half of the time with a table and a paragraph put right behind the container (the container is transparent: its blocks are body content at its place; key block-container-content-lost when they are in no view - known finding - and the usual body-order keys for everything around it), " +
+		"empty marker elements (w:bookmarkStart / w:bookmarkEnd / w:proofErr) as children of the body between the blocks, w:trPr/w:tblHeader on the leading row(s) of a DOCX table or on rows further down; in a third of the ODT tables the rows laid out by a drawn plan of sections (rows / header-rows / header-rows, rows / rows, header-rows, rows - each directly in the table or in a table:table-row-group of its own, plain rows as they are or in table:table-rows), so that table:table-header-rows also comes AFTER other rows and several times in one table (the table is its rows in source order, wherever they are written); " +
 		"plus fixed witnesses of the quoted defects and a stream of damaged packages; " +
 		"plus documents AT THE RESOURCE BOUNDS of the readers, written element by element (bounds.go; distribution buckets bound:…): inline containers (w:ins/w:sdt/w:sdtContent/w:hyperlink/w:smartTag/w:fldSimple/w:moveTo, text:span/text:a) nested 9999, 10000, 10001, 10002 and 40000 deep with text at several depths - in a body paragraph, a heading, a list-item paragraph, a table-cell paragraph, a header part, a nested table (not decoded), as the first body paragraph, inside a text:section, inside a skipped text:note (not decoded), with block elements behind the refused tag; " +
 		"text:s counts 1, 7, 1023, 1024, 1025, 4096, 2^31-1, 2^63-1, 2^63, 10^20-1, +5, 007, 0, -3, empty, a word, omitted; tables whose rows x spanned columns are 2^20-cols, 2^20, 2^20+cols (spans 1024, 1000 - integer division -, 2 x 256, with vMerge, with row spans 16 and 1024), twenty and eight million, and large tables without spans; ODT tables whose table:table-column elements DECLARE more columns than the rows hold: rows x declared columns = 2^20 exactly (1024 x 1024, 1 x 2^20), one row / one column more, 1048 / 1049 rows x 1000, 128 x 131072 (the quoted document), 300 x 307200, 2 x 2048000; a basedOn chain of 2000 styles - " +
